@@ -127,7 +127,7 @@ func VerifC13Stream() {
 	st := &c13State{faultFrom: -1}
 	kind := verifChoice("disturbance", 6)
 	if bigMode {
-		verifAssume(kind == 0 || kind == 2 || kind == 5)
+		verifAssume(kind == 0 || kind == 1 || kind == 2 || kind == 5)
 	}
 	if k := verifParam("ONLYKIND"); k != 0 {
 		verifAssume(kind == k-1) // a variant of the harness that spends its schedule budget on one disturbance
